@@ -3,9 +3,11 @@
 package trzsz
 
 import (
+	"bytes"
 	"fmt"
 	"os"
 	"path/filepath"
+	"regexp"
 	"strings"
 	"testing"
 	"time"
@@ -80,7 +82,111 @@ func TestVF_C09(t *testing.T) {
 			}
 		}
 	}
+	// names the real marshaller cannot produce: raw JSON path lists (escaped dots and separators) put
+	// into the sender's NAME message on the wire
+	raws := []struct{ name, json string }{
+		{"esc-dotdot", `["\u002e\u002e","planted.txt"]`},
+		{"esc-dotdot-mixed", `[".\u002e","planted.txt"]`},
+		{"esc-dotdot-mid", `["a","\u002e\u002e","\u002e\u002e","planted.txt"]`},
+		{"esc-slash", `["\u002e\u002e\u002fplanted.txt"]`},
+		{"esc-slash-mid", `["a\u002f..\u002f..\u002fplanted.txt"]`},
+		{"esc-abs", `["\u002ftmp\u002fvf-c09-abs-planted.txt"]`},
+		{"esc-dotdot-sibling", `["\u002e\u002e","sibling","victim.txt"]`},
+		{"dup-key", `["ok.txt"],"path_name":["..","planted.txt"]`},
+		{"nested-array", `[["..","planted.txt"]]`},
+		{"number-elem", `[1,"planted.txt"]`},
+		{"null-elem", `[null,"..","planted.txt"]`},
+	}
+	for ri := range raws {
+		for _, dir := range []string{"up", "down"} {
+			for _, overwrite := range []bool{false, true} {
+				for _, proto := range []int{2, 3, 4} {
+					ri, dir, overwrite, proto := ri, dir, overwrite, proto
+					if !vfThorough() && (ri+proto)%2 != vfSeed%2 {
+						continue
+					}
+					cases = append(cases, vfCase{ID: fmt.Sprintf("raw-%s-%s-y%v-p%d", raws[ri].name, dir, overwrite, proto), Run: func(c *vfCtx) {
+						vfC09RawCase(c, raws[ri].name, raws[ri].json, dir, overwrite, proto)
+					}})
+				}
+			}
+		}
+	}
 	vfRunCases(t, "C09", cases, 3, 300*time.Second)
+}
+
+var vfPathNameRe = regexp.MustCompile(`"path_name":\[[^\]]*\]`)
+
+func vfC09RawCase(c *vfCtx, name, rawJSON, dir string, overwrite bool, proto int) {
+	root := filepath.Join(c.Dir, "root")
+	dst := filepath.Join(root, "dest")
+	sib := filepath.Join(root, "sibling")
+	src := filepath.Join(c.Dir, "src")
+	os.MkdirAll(dst, 0755)
+	os.MkdirAll(sib, 0755)
+	os.MkdirAll(src, 0755)
+	os.WriteFile(filepath.Join(sib, "victim.txt"), []byte("victim content, must survive"), 0644)
+	os.WriteFile(filepath.Join(root, "canary.txt"), []byte("canary"), 0644)
+	os.WriteFile(filepath.Join(src, "plain.txt"), []byte("hostile payload plain"), 0644)
+	old := time.Now().Add(-time.Hour)
+	os.Chtimes(filepath.Join(sib, "victim.txt"), old, old)
+	cfg := vfCfg{Timeout: 5, Dir: dir, Overwrite: overwrite, Directory: true, Protocol: proto, Quiet: true, Direct: dir == "up"}
+	before := vfSnapshotExcept(c.Dir, []string{filepath.Join("root", "dest"), "src"})
+	os.Remove("/tmp/vf-c09-abs-planted.txt")
+	hit := false
+	mut := func(index int, typ string, line []byte) []byte {
+		if typ != "NAME" || hit {
+			return line
+		}
+		nl := "\n"
+		body := bytes.TrimSuffix(line, []byte("\n"))
+		dec, err := decodeString(string(body[6:]))
+		if err != nil || !vfPathNameRe.Match(dec) {
+			return line
+		}
+		hit = true
+		dec = vfPathNameRe.ReplaceAll(dec, []byte(`"path_name":`+strings.ReplaceAll(rawJSON, "$", "$$")))
+		return []byte("#NAME:" + encodeString(string(dec)) + nl)
+	}
+	c.Replay(map[string]interface{}{"cfg": cfg, "raw": rawJSON})
+	s, so, co, fin := vfRunTransfer(c, cfg, []string{filepath.Join(src, "plain.txt")}, dst, 60*time.Second, func(s *vfSession) {
+		if dir == "up" {
+			s.cliW().SetMutator(mut)
+		} else {
+			s.srvW().SetMutator(mut)
+		}
+	})
+	if !fin {
+		return
+	}
+	s.Close()
+	if !hit {
+		c.Inconc("NAME message was not rewritten")
+		return
+	}
+	after := vfSnapshotExcept(c.Dir, []string{filepath.Join("root", "dest"), "src"})
+	class := "raw-" + name
+	for k, e := range after {
+		b, ok := before[k]
+		if !ok {
+			c.Viol("c09-created-outside:"+class, "receiving created %q outside the destination directory (raw JSON path list %s, overwrite=%v protocol %d, %s)", k, rawJSON, overwrite, proto, dir)
+			return
+		}
+		if b.Type != e.Type || b.Size != e.Size || b.Hash != e.Hash || (e.Type == "f" && b.Mtime != e.Mtime) {
+			c.Viol("c09-modified-outside:"+class, "receiving modified %q outside the destination directory (raw JSON path list %s)", k, rawJSON)
+			return
+		}
+	}
+	if _, err := os.Stat("/tmp/vf-c09-abs-planted.txt"); err == nil {
+		os.Remove("/tmp/vf-c09-abs-planted.txt")
+		c.Viol("c09-created-outside:"+class, "receiving created /tmp/vf-c09-abs-planted.txt from an escaped absolute path")
+		return
+	}
+	_ = so
+	_ = co
+	c.SetAdd("name_shapes", class)
+	c.Obs("raw_json_names", 1)
+	c.Nontrivial(fmt.Sprintf("raw %s %s y%v p%d", name, dir, overwrite, proto))
 }
 
 func vfC09Case(c *vfCtx, root string, h vfHostile, dir string, overwrite, directory bool, where string, proto int) {
